@@ -302,7 +302,7 @@ func (c10) Run(ts *tape.Set, tier Tier) *Result {
 	for b := first.br.blocks; b > 0; b /= 2 {
 		bc++
 	}
-	sig = fnvMix(sig, uint64(kind), uint64(bc), uint64(len(orders)), tape.HashString(sc.Spec))
+	sig = fnvMix(sig, uint64(kind), uint64(bc), tape.HashString(sc.Spec)) // commit-order count is observed map order: not part of the signature
 	res.Sig = sig
 	return res
 }
